@@ -19,6 +19,7 @@ import (
 	"path/filepath"
 	"reflect"
 	"regexp"
+	"runtime"
 	"runtime/debug"
 	"runtime/metrics"
 	"sort"
@@ -54,6 +55,10 @@ type c05Case struct {
 	RepCount int    `json:"rep_count,omitempty"`
 	Tail     []byte `json:"tail,omitempty"`
 	Direct   bool   `json:"direct,omitempty"` // call Packet.Decode directly (wrapped as decodePayload wraps it)
+	// Compressed: the frame is sent zlib-compressed to a decoder with compression enabled
+	// (threshold 64); this is how payloads above the 2 MiB frame limit (up to 8 MiB
+	// clientbound) reach the packet decoders.
+	Compressed bool `json:"compressed,omitempty"`
 	Valid    bool   `json:"valid_base,omitempty"`
 }
 
@@ -79,6 +84,11 @@ func (c c05Case) data() []byte {
 const (
 	c05PerByte  = 64
 	c05FixedCap = 32 << 20
+	// goroutine stack growth: the recursive NBT reader (go-mc rawRead, behind
+	// util.ReadBinaryTag) needs about 110 bytes of stack per payload byte on nested
+	// compounds (3 bytes per level, ~330 bytes per frame); that is linear and is not
+	// reported. Exceeding the runtime's 1 GB stack limit is fatal and is reported.
+	c05StackPerByte = 256
 )
 
 var c05Samples = []metrics.Sample{{Name: "/gc/heap/allocs:bytes"}, {Name: "/memory/classes/heap/stacks:bytes"}}
@@ -104,6 +114,7 @@ type c05Outcome struct {
 	panicStack string
 	effProto   proto.Protocol
 	fatal      string // isolated run ended in a runtime fatal: "stack-overflow", "out-of-memory", ...
+	inconclusive bool
 }
 
 func c05Registry(st int) *state.Registry {
@@ -165,7 +176,11 @@ func c05EffectiveRegistry(c c05Case) *state.ProtocolRegistry {
 // the command tree builder) are decoded in a child process, so that the verdict is an
 // ordinary violation and the search survives it.
 func c05Risky(c c05Case, typ string) bool {
-	return typ == "packet.AvailableCommands" && c.Kind != "valid"
+	if typ == "packet.AvailableCommands" && c.Kind != "valid" {
+		return true
+	}
+	// nesting deep enough to approach the runtime's stack limit
+	return c.RepCount >= 300000 && typ != ""
 }
 
 type c05ChildReport struct {
@@ -185,7 +200,9 @@ var c05ChildSeq int
 func c05ExecIsolated(c c05Case, data []byte, typ string, eff proto.Protocol) c05Outcome {
 	out := c05Outcome{typ: typ, effProto: eff}
 	cc := c
-	cc.Head, cc.RepUnit, cc.RepCount, cc.Tail = data, nil, 0, nil
+	if !bytes.Equal(data, c.data()) {
+		cc.Head, cc.RepUnit, cc.RepCount, cc.Tail = data, nil, 0, nil
+	}
 	b, _ := json.Marshal(cc)
 	c05ChildSeq++
 	path := filepath.Join(os.TempDir(), fmt.Sprintf("c05-child-%d-%d.json", os.Getpid(), c05ChildSeq))
@@ -193,7 +210,7 @@ func c05ExecIsolated(c c05Case, data []byte, typ string, eff proto.Protocol) c05
 		panic(err)
 	}
 	defer os.Remove(path)
-	ctx, cancel := context.WithTimeout(context.Background(), 180*time.Second)
+	ctx, cancel := context.WithTimeout(context.Background(), 15*time.Minute)
 	defer cancel()
 	cmd := exec.CommandContext(ctx, os.Args[0], "-test.run", "^TestVerif_C05Child$", "-test.count", "1")
 	cmd.Env = append(os.Environ(), "VERIF_C05_CHILD="+path, "VERIF_STATS=", "VERIF_LASTCASE=", "VERIF_REPLAY=", "GOTRACEBACK=single")
@@ -232,7 +249,7 @@ func c05ExecIsolated(c c05Case, data []byte, typ string, eff proto.Protocol) c05
 	}
 	switch {
 	case ctx.Err() != nil:
-		out.hung, out.panicStack = true, "isolated decode did not finish within 180 s\n"+head
+		out.inconclusive, out.panicStack = true, "isolated decode did not finish within 15 min\n"+head
 	case strings.Contains(txt, "stack overflow") || strings.Contains(txt, "stack exceeds"):
 		out.fatal, out.panicStack = "stack-overflow", head
 	case strings.Contains(txt, "out of memory") || strings.Contains(txt, "cannot allocate"):
@@ -260,7 +277,9 @@ func TestVerif_C05Child(t *testing.T) {
 	data := c.data()
 	// a goroutine needing more than twice the stack bound of the oracle violates that
 	// bound anyway; the lower limit only makes the runaway end quickly
-	debug.SetMaxStack(2 * (c05PerByte*(len(data)+8) + c05FixedCap))
+	if lim := 2 * (c05StackPerByte*(len(data)+8) + c05FixedCap); lim < 1000000000 {
+		debug.SetMaxStack(lim)
+	}
 	o := c05execLocal(c, data)
 	rep := c05ChildReport{Alloc: o.alloc, Stack: o.stack, Hung: o.hung, Deadlocked: o.deadlocked, CtxNil: o.ctx == nil, PanicStack: o.panicStack}
 	if o.err != nil {
@@ -295,7 +314,12 @@ func c05execLocal(c c05Case, data []byte) c05Outcome {
 		}
 	}
 	payload := append(verifkit.RefVarInt(int32(c.ID)), data...)
-	frame := verifkit.RefFrame(payload, -1, 0)
+	var frame []byte
+	if c.Compressed {
+		frame = verifkit.RefFrame(payload, 64, 1)
+	} else {
+		frame = verifkit.RefFrame(payload, -1, 0)
+	}
 	run := func() {
 		if c.Direct {
 			if er == nil {
@@ -320,6 +344,9 @@ func c05execLocal(c c05Case, data []byte) c05Outcome {
 			return
 		}
 		dec := c05Decoder(c, frame)
+		if c.Compressed {
+			dec.SetCompressionThreshold(64)
+		}
 		a0, s0 := c05Mem()
 		ctx, err := dec.Decode()
 		a1, s1 := c05Mem()
@@ -328,16 +355,56 @@ func c05execLocal(c c05Case, data []byte) c05Outcome {
 			out.stack = s1 - s0
 		}
 	}
-	w := verifkit.Watch(10*time.Second, "proto/", run)
-	switch w.Outcome {
-	case verifkit.Panicked:
-		out.panicked, out.panicStack = w.PanicValue, w.PanicStack
-	case verifkit.Deadlocked:
-		out.deadlocked, out.panicStack = true, w.Stack
-	case verifkit.Slow:
-		out.hung, out.panicStack = true, w.Stack
-	}
+	c05Watch(&out, run)
 	return out
+}
+
+// c05Watch runs fn on its own goroutine and waits for it. Slowness alone is never a
+// verdict: the call is declared hung only after three consecutive 10 s windows in which
+// the process neither allocated a byte nor changed its stack footprint while the call
+// was still running (a decoder working on an in-memory payload does one or the other).
+// A call that keeps making progress is waited for (the driver's timeout is the backstop).
+func c05Watch(out *c05Outcome, fn func()) {
+	done := make(chan struct{})
+	go func() {
+		defer close(done)
+		defer func() {
+			if p := recover(); p != nil {
+				st := make([]byte, 16384)
+				st = st[:runtime.Stack(st, false)]
+				out.panicked, out.panicStack = p, string(st)
+			}
+		}()
+		fn()
+	}()
+	samples := []metrics.Sample{{Name: "/gc/heap/allocs:bytes"}, {Name: "/memory/classes/heap/stacks:bytes"}}
+	metrics.Read(samples)
+	lastA, lastS := samples[0].Value.Uint64(), samples[1].Value.Uint64()
+	idle := 0
+	timer := time.NewTimer(10 * time.Second)
+	defer timer.Stop()
+	for {
+		select {
+		case <-done:
+			return
+		case <-timer.C:
+		}
+		metrics.Read(samples)
+		a, st := samples[0].Value.Uint64(), samples[1].Value.Uint64()
+		if a == lastA && st == lastS {
+			idle++
+		} else {
+			idle = 0
+		}
+		lastA, lastS = a, st
+		if idle >= 3 {
+			buf := make([]byte, 1<<16)
+			buf = buf[:runtime.Stack(buf, true)]
+			*out = c05Outcome{typ: out.typ, effProto: out.effProto, hung: true, panicStack: string(buf)}
+			return
+		}
+		timer.Reset(10 * time.Second)
+	}
 }
 
 // c05Twin scales every VarInt-looking sequence of 4-5 bytes with a value above `scaled` down to
@@ -347,16 +414,22 @@ func c05execLocal(c c05Case, data []byte) c05Outcome {
 func c05Twin(data []byte, scaled uint32) ([]byte, bool) {
 	var out []byte
 	changed := false
-	for i := 0; i < len(data); {
-		n, v, ok := c05VarIntAt(data, i)
+	cur := data
+	budget := 8*len(data) + 64
+	for i := 0; i < len(cur) && budget > 0; budget-- {
+		n, v, ok := c05VarIntAt(cur, i)
 		if ok && n >= 4 && v > int32(scaled) {
 			if out == nil {
 				out = append([]byte(nil), data...)
+				cur = out
 			}
-			enc := c05PadVarInt(scaled, n)
-			copy(out[i:], enc)
+			copy(out[i:], c05PadVarInt(scaled, n))
 			changed = true
-			i += n
+			// the new bytes may complete a large VarInt that starts a few bytes earlier
+			i -= 4
+			if i < 0 {
+				i = 0
+			}
 			continue
 		}
 		i++
@@ -406,7 +479,7 @@ func c05Judge(c c05Case, data []byte, o c05Outcome, twin bool) (*verifkit.Violat
 	switch o.fatal {
 	case "":
 	case "stack-overflow":
-		return verifkit.Violationf("stack:"+site, "decoding a %d byte frame in an isolated process ended in a fatal stack overflow (goroutine stack above twice the bound %d)%s\n%s", frameLen, c05PerByte*frameLen+c05FixedCap, suffix, o.panicStack), nil, false
+		return verifkit.Violationf("stack:"+site, "decoding a %d byte payload in an isolated process ended in a fatal stack overflow (goroutine stack above min(1 GB, 2*(%d*len + %d)))%s\n%s", frameLen, c05StackPerByte, c05FixedCap, suffix, o.panicStack), nil, false
 	case "out-of-memory":
 		return verifkit.Violationf("alloc:"+site, "decoding a %d byte frame in an isolated process ended in a fatal out-of-memory%s\n%s", frameLen, suffix, o.panicStack), nil, false
 	default:
@@ -423,14 +496,14 @@ func c05Judge(c c05Case, data []byte, o c05Outcome, twin bool) (*verifkit.Violat
 		return verifkit.Violationf("hang:deadlock:"+site, "Decode blocked in a sync primitive%s\n%s", suffix, o.panicStack), nil, false
 	}
 	if o.hung {
-		return verifkit.Violationf("hang:"+site, "Decode of %d bytes did not return within 20 s%s\n%s", len(data), suffix, o.panicStack), nil, false
+		return verifkit.Violationf("hang:"+site, "Decode of %d bytes did not return and made no progress (no allocation, no stack change) for 30 s%s\n%s", len(data), suffix, o.panicStack), nil, false
 	}
 	bound := uint64(c05PerByte*frameLen + c05FixedCap)
 	if o.alloc > bound {
 		return verifkit.Violationf("alloc:"+site, "decoding a %d byte frame allocated %d bytes (bound %d = %d*len + %d)%s; error: %v", frameLen, o.alloc, bound, c05PerByte, c05FixedCap, suffix, o.err), nil, false
 	}
-	if o.stack > bound {
-		return verifkit.Violationf("stack:"+site, "decoding a %d byte frame grew goroutine stacks by %d bytes (bound %d)%s", frameLen, o.stack, bound, suffix), nil, false
+	if sb := uint64(c05StackPerByte*frameLen + c05FixedCap); o.stack > sb {
+		return verifkit.Violationf("stack:"+site, "decoding a %d byte payload grew goroutine stacks by %d bytes (bound %d = %d*len + %d)%s", frameLen, o.stack, sb, c05StackPerByte, c05FixedCap, suffix), nil, false
 	}
 	var labels []string
 	nt := false
@@ -469,6 +542,9 @@ func c05Run(c c05Case) verifkit.Result {
 	if c.Direct {
 		labels = append(labels, "direct-Packet.Decode")
 	}
+	if c.Compressed {
+		labels = append(labels, "compressed-frame")
+	}
 	if len(data) > 65536 {
 		labels = append(labels, "payload>64KiB")
 	}
@@ -489,6 +565,9 @@ func c05Run(c c05Case) verifkit.Result {
 	o := c05Exec(c, data)
 	if o.typ != "" {
 		labels = append(labels, "type:"+o.typ)
+	}
+	if o.inconclusive {
+		return verifkit.Result{Inconclusive: true, Labels: append(labels, "inconclusive:isolated-run-timeout")}
 	}
 	v, l2, nt := c05Judge(c, data, o, false)
 	labels = append(labels, l2...)
@@ -513,15 +592,52 @@ var c05Protocols = func() []int {
 	return out
 }()
 
+var c05ByTypeCache map[string][]c04Combo
+var c05TypeNamesCache []string
+
+func c05CombosByType() map[string][]c04Combo {
+	if c05ByTypeCache == nil {
+		m := map[string][]c04Combo{}
+		for _, c := range c04Combos() {
+			m[c.Type.String()] = append(m[c.Type.String()], c)
+		}
+		c05ByTypeCache = m
+	}
+	return c05ByTypeCache
+}
+
+func c05TypeNames() []string {
+	if c05TypeNamesCache == nil {
+		for k := range c05CombosByType() {
+			c05TypeNamesCache = append(c05TypeNamesCache, k)
+		}
+		sort.Strings(c05TypeNamesCache)
+	}
+	return c05TypeNamesCache
+}
+
 var c05BlowValues = []int32{-1, 1<<31 - 1, 1 << 21, 1 << 24, 1 << 28, 65536, 65537, 32768, 32769, 262145, 5121, 129}
 
 func c05Gen(t *rapid.T) c05Case {
-	combos := c04Combos()
 	c := c05Case{Order: "real"}
 	var combo c04Combo
 	haveCombo := false
+	// rapid's integer generators favour small values; hash a few drawn bytes for an even spread
+	uniform := func(label string, n int) int {
+		b := rapid.SliceOfN(rapid.Byte(), 4, 4).Draw(t, label)
+		h := uint32(2166136261)
+		for _, x := range b {
+			h = (h ^ uint32(x)) * 16777619
+		}
+		h ^= h >> 15
+		return int(h % uint32(n))
+	}
 	if rapid.IntRange(0, 9).Draw(t, "fromRegistry") < 8 {
-		combo = combos[rapid.IntRange(0, len(combos)-1).Draw(t, "registration")]
+		// type first (66 types), then one of its registrations
+		byType := c05CombosByType()
+		names := c05TypeNames()
+		list := byType[names[uniform("type", len(names))]]
+		combo = list[uniform("registration", len(list))]
 		haveCombo = true
 		c.State, c.Dir, c.Proto, c.ID = int(combo.State), int(combo.Dir), int(combo.Proto), int(combo.ID)
 	} else {
@@ -531,9 +647,12 @@ func c05Gen(t *rapid.T) c05Case {
 		c.ID = rapid.OneOf(rapid.IntRange(0, 0x80), rapid.IntRange(-2, 300), rapid.SampledFrom([]int{1<<31 - 1, -1 << 31, 1 << 20})).Draw(t, "id")
 	}
 	c.Direct = rapid.IntRange(0, 5).Draw(t, "direct") == 0
+	if !c.Direct && rapid.IntRange(0, 9).Draw(t, "compressed") == 0 {
+		c.Compressed = true
+	}
 	kind := "random"
 	if haveCombo {
-		kind = rapid.SampledFrom([]string{"random", "valid", "mutated", "mutated", "truncated", "blowup", "blowup", "blowup", "deep-nbt", "extended"}).Draw(t, "kind")
+		kind = []string{"random", "random", "valid", "valid", "mutated", "mutated", "mutated", "mutated", "truncated", "truncated", "blowup", "blowup", "blowup", "blowup", "blowup", "blowup", "deep-nbt", "extended", "extended", "mutated"}[uniform("kind", 20)]
 	}
 	c.Kind = kind
 	randBytes := func(label string, max int) []byte {
@@ -559,7 +678,7 @@ func c05Gen(t *rapid.T) c05Case {
 	switch kind {
 	case "random":
 		c.Head = randBytes("payload", 2048)
-		if rapid.IntRange(0, 40).Draw(t, "big") == 0 {
+		if rapid.IntRange(0, 80).Draw(t, "big") == 80 {
 			c.RepUnit = rapid.SliceOfN(rapid.Byte(), 1, 8).Draw(t, "unit")
 			c.RepCount = rapid.SampledFrom([]int{10000, 100000, 260000}).Draw(t, "count")
 		}
@@ -619,7 +738,12 @@ func c05Gen(t *rapid.T) c05Case {
 			c.Head = append(c.Head, 0x09)
 			c.RepUnit = []byte{0x09, 0x00, 0x00, 0x00, 0x01}
 		}
-		c.RepCount = rapid.SampledFrom([]int{10, 1000, 20000, 100000, 400000}).Draw(t, "depth")
+		c.RepCount = rapid.SampledFrom([]int{10, 200, 1000, 1000, 5000, 20000, 20000, 100000, 400000}).Draw(t, "depth")
+		if verifkit.Thorough() && c.Dir == int(proto.ClientBound) && !c.Direct && rapid.IntRange(0, 15).Draw(t, "veryDeep") == 0 {
+			// only reachable through a compressed frame (clientbound cap 8 MiB)
+			c.Compressed = true
+			c.RepCount = rapid.SampledFrom([]int{800000, 1700000, 2700000}).Draw(t, "veryDeepDepth")
+		}
 		c.Tail = randBytes("tail", 16)
 	}
 	return c
